@@ -379,7 +379,10 @@ class RandomGen:
                     return None
                 return ('rmtr', m.tracers[-1][0])
             if kind == 'rep':
-                return ('rep', rng.choice('ABC'), rng.choice([1, 2, 2]))
+                ar = rng.choice([1, 2, 2])
+                if ar == 2 and rng.random() < 0.35:
+                    return ('rep', rng.choice('ABC'), 2, 1)      # reporters given as pointers to plain functions
+                return ('rep', rng.choice('ABC'), ar)
             if kind == 'setp':
                 c = [e for e in m.exps.values() if not e.is_mon and e.shape['nw'] and e.shape['wlr']]
                 if not c:
